@@ -13,6 +13,41 @@ from vf import abs as A
 PackingOptions, unpack_ldap_message = A.lib("PackingOptions"), A.lib("unpack_ldap_message")
 
 OPTS = PackingOptions()
+
+
+class CallDoesNotReturn(BaseException):
+    """Raised inside a library call that has not returned within the guard's limit (an endless loop must become a
+    reported violation of whatever the call was supposed to deliver, not a check that never finishes)."""
+
+
+class guard:
+    """``with guard(20): library call``  -- SIGALRM based, main thread of the (worker) process only."""
+
+    fired = 0  # per process; after three stalls further guarded calls are not attempted (a tree that loops would otherwise
+    #            cost seconds for each of thousands of inputs)
+
+    def __init__(self, seconds: float = 20.0) -> None:
+        self.seconds = seconds
+
+    def _fire(self, signum: int, frame: t.Any) -> None:
+        guard.fired += 1
+        raise CallDoesNotReturn(f"no result after {self.seconds:g} s")
+
+    def __enter__(self) -> "guard":
+        import signal
+
+        if guard.fired >= 3:
+            raise CallDoesNotReturn("not attempted: three earlier calls in this process did not return")
+
+        self.old = signal.signal(signal.SIGALRM, self._fire)
+        signal.setitimer(signal.ITIMER_REAL, self.seconds)
+        return self
+
+    def __exit__(self, *exc: t.Any) -> None:
+        import signal
+
+        signal.setitimer(signal.ITIMER_REAL, 0)
+        signal.signal(signal.SIGALRM, self.old)
 UNBIND_PDU = bytes.fromhex("30050201004200")  # an independent, hand-assembled second PDU
 
 
